@@ -6,6 +6,7 @@ import TlsModel.Suites
     ms s                         -> macLength digest|None                     | AssertionError
     obj factory keyLength        -> name isAEAD isBlock blockSize tagLength   | AssertionError | ValueError
     prf s                        -> sha256 32 | sha384 48
+    kuprf s                      -> sha256 32 | sha384 48       (_calcTLS1_3KeyUpdate)
     calcprf vmaj vmin s          -> PRF_SSL|PRF|PRF_1_2|PRF_1_2_SHA384        | AssertionError
     ffv minmaj minmin maxmaj maxmin suites            -> suites
     fsl vmaj vmin macs ciphers kexs suites            -> suites      (_filterSuites)
@@ -61,6 +62,10 @@ def handle : List String → Option String
   | ["prf", s] => do
     let s ← s.toNat?
     let p := prfParams s
+    some s!"{p.1.str} {p.2}"
+  | ["kuprf", s] => do
+    let s ← s.toNat?
+    let p := prfAfterKeyUpdate s
     some s!"{p.1.str} {p.2}"
   | ["calcprf", a, b, s] => do
     let s ← s.toNat?
